@@ -522,22 +522,32 @@ mutual
         | none => cbfPassesEmptyKids lang f es rest (si + 1) saw
 end
 
-/-! ## Widths of the cursor's and the iterators' index fields (tie of the ℕ-valued ports to the C structs)
+/-! ## Index fields of the cursor and the iterators beyond 16 bits (tie of the ℕ-valued ports to the C structs)
 
 The ports of tree_cursor.c / node.c keep child index, structural child index and descendant index in `Nat`; the C code in
-`uint32_t` fields of `TreeCursorEntry`, `CursorChildIterator`, `NodeChildIterator`.  These grow with the document
-(`descendant_index` up to the number of visible nodes, `child_index` up to a node's raw fan-out), so each must hold every
-32-bit value for the ports' arithmetic to be the code's on documents < 4 GiB (`cursor_prev_sibling_spec` states the
-< 2³² assumption).  `tsv-cunit_c02 cwidths` measures the real fields. -/
-def assumedCursorBits : List (String × Nat) :=
-  [("entry_child_index", 32), ("entry_structural_child_index", 32), ("entry_descendant_index", 32),
-   ("citer_child_index", 32), ("citer_structural_child_index", 32), ("citer_descendant_index", 32),
-   ("niter_child_index", 32), ("niter_structural_child_index", 32), ("current_descendant_index", 32)]
+fixed-width fields of `TreeCursorEntry`, `CursorChildIterator`, `NodeChildIterator`.  They grow with the document, and no
+explored PARSED tree comes near 2¹⁶ nodes (the full judge is quadratic in the fan-out).  `tsv-cunit_c02 cwidths` therefore
+builds ONE flat node with `n = 70 000` one-byte leaf children with the real constructors and asks the real cursor / node
+functions questions whose answers depend on indices beyond 65 535.  Child `i` of such a node starts at byte `i` and is
+visible node number `i + 1` of the walk, so every expected answer is arithmetic in `n` — no field is named, the probe is
+behavioural.  (`current_descendant_index`: an all-ones entry read back through the accessor: ≥ 32 bits.) -/
+def wideProbeExpected (n : Nat) : List (String × Nat) :=
+  [("child_count", n), ("ok", 1), ("last_start", n - 1), ("last_desc", n), ("prev_start", n - 2), ("prev_desc", n - 1),
+   ("steps", n - 1), ("walk_start", n - 1), ("walk_desc", n), ("gd_start", 65536), ("gd_desc", 65537),
+   ("fcb_index", 66000), ("fcb_start", 66000), ("child_last", n - 1), ("child_65536", 65536), ("next_of_65535", 65536),
+   ("prev_of_65536", 65535), ("node_fcb", 66000), ("node_dbr", 67000)]
 
-def cursorWidthFails (measured : List (String × Nat)) : List String :=
-  assumedCursorBits.filterMap fun (name, w) =>
-    match measured.lookup name with
-    | some v => if C02.bitsOfMax v ≥ w then none else some s!"{name}: holds {C02.bitsOfMax v} bits (max {v}), the ports assume >= {w}"
-    | none => some s!"{name}: not measured"
+def wideProbeFails (measured : List (String × Nat)) : List String :=
+  match measured.lookup "n" with
+  | none => ["n: not measured"]
+  | some n =>
+    (if n ≥ 70000 then [] else [s!"n = {n}: the probe must exceed 16 bits"]) ++
+    ((wideProbeExpected n).filterMap fun (name, e) =>
+      match measured.lookup name with
+      | some v => if v == e then none else some s!"{name}: real functions answer {v}, a flat node of {n} one-byte leaves gives {e}"
+      | none => some s!"{name}: not measured") ++
+    (match measured.lookup "current_descendant_index" with
+     | some v => if C02.bitsOfMax v ≥ 32 then [] else [s!"current_descendant_index: holds {C02.bitsOfMax v} bits, the ports assume >= 32"]
+     | none => ["current_descendant_index: not measured"])
 
 end TsVerif.C06
